@@ -122,6 +122,17 @@ func indentOf(s string) int {
 	return n
 }
 
+// a "//line name:N[:1]" comment inserted (at column 1) above base line `at` of `file`: every later line of the file is
+// displayed as name:N, N+1, ...; without the column part the displayed column is 0 (unknown)
+type remap struct {
+	file    string
+	at      int
+	name    string
+	n       int
+	withCol bool
+	raw     int // 1-based line of the //line comment in the variant (filled by write)
+}
+
 type insertion struct {
 	file string
 	at   int // 0-based line of the base file above which the comment goes
@@ -240,7 +251,7 @@ func runCli(r *hx.Rand, work string, nvar int, allRuns bool, o *Output) {
 		deck[i], deck[j] = deck[j], deck[i]
 	}
 	files := []*srcFile{genFile("a.go", "a", deck[:9]), genFile("b.go", "b", deck[9:])}
-	write := func(pkg string, ins []insertion) (string, map[string][]int) {
+	write := func(pkg string, ins []insertion, remaps []*remap) (string, map[string][]int) {
 		// returns the concatenated source and, per file, the new 1-based line number of every base line
 		var all strings.Builder
 		shift := map[string][]int{}
@@ -249,6 +260,17 @@ func runCli(r *hx.Rand, work string, nvar int, allRuns bool, o *Output) {
 			newline := make([]int, len(f.lines))
 			n := 0
 			for i, l := range f.lines {
+				for _, rm := range remaps {
+					if rm.file == f.name && rm.at == i {
+						if rm.withCol {
+							fmt.Fprintf(&b, "//line %s:%d:1\n", rm.name, rm.n)
+						} else {
+							fmt.Fprintf(&b, "//line %s:%d\n", rm.name, rm.n)
+						}
+						n++
+						rm.raw = n
+					}
+				}
 				for _, in := range ins {
 					if in.file == f.name && in.at == i {
 						b.WriteString(strings.Repeat("\t", indentOf(l)) + in.text + "\n")
@@ -266,7 +288,7 @@ func runCli(r *hx.Rand, work string, nvar int, allRuns bool, o *Output) {
 		return all.String(), shift
 	}
 	o.Sources = map[string]string{}
-	src, _ := write("base", nil)
+	src, _ := write("base", nil, nil)
 	o.Sources["base"] = src
 
 	// -checks settings
@@ -311,9 +333,10 @@ func runCli(r *hx.Rand, work string, nvar int, allRuns bool, o *Output) {
 
 	// variants
 	type variant struct {
-		name  string
-		ins   []insertion
-		shift map[string][]int
+		name   string
+		ins    []insertion
+		shift  map[string][]int
+		remaps []*remap
 	}
 	codesAt := func(file string, line0 int) []string {
 		var l []string
@@ -367,9 +390,64 @@ func runCli(r *hx.Rand, work string, nvar int, allRuns bool, o *Output) {
 			ins = append(ins, insertion{file: f.name, at: at, text: "//lint:" + strings.Join(parts, " ")})
 		}
 		name := fmt.Sprintf("v%03d", v)
-		src, shift := write(name, ins)
+		// //line-remapped variants (a sample): the region carrying one of the inserted directives is displayed under
+		// another file name and line numbering; the control puts the //line comment after directive and code line.
+		// Names matching U1000 are avoided there: unused.go compares raw positions among themselves.
+		var remaps []*remap
+		if r.Chance(45) {
+			in := ins[r.Intn(len(ins))]
+			var f *srcFile
+			for _, g := range files {
+				if g.name == in.file {
+					f = g
+				}
+			}
+			var before, after []int
+			for i, t := range f.target {
+				if t && i > 0 && indentOf(f.lines[i]) == 0 {
+					if i <= in.at {
+						before = append(before, i)
+					} else {
+						after = append(after, i)
+					}
+				}
+			}
+			at := -1
+			switch {
+			case r.Chance(25) && len(after) > 0: // control
+				at = after[r.Intn(len(after))]
+			case in.at > 0 && r.Chance(35): // directly above the directive comment
+				at = in.at
+			case len(before) > 0:
+				at = before[r.Intn(len(before))]
+			case in.at > 0:
+				at = in.at
+			}
+			if at > 0 {
+				remaps = append(remaps, &remap{file: f.name, at: at, name: fmt.Sprintf("remap%d_%s", v, f.name), n: 100 * (1 + r.Intn(9)), withCol: r.Chance(35)})
+				for k := range ins {
+					for tries := 0; tries < 50; tries++ {
+						fields := strings.Split(strings.TrimPrefix(ins[k].text, "//lint:"), " ")
+						bad := false
+						if len(fields) > 1 {
+							for _, nm := range strings.Split(fields[1], ",") {
+								if m, _ := filepath.Match(strings.ToLower(nm), "u1000"); m {
+									bad = true
+								}
+							}
+						}
+						if !bad {
+							break
+						}
+						fields[1] = genNames(r, codesAt(ins[k].file, ins[k].at), codes)
+						ins[k].text = "//lint:" + strings.Join(fields, " ")
+					}
+				}
+			}
+		}
+		src, shift := write(name, ins, remaps)
 		o.Sources[name] = src
-		variants = append(variants, variant{name, ins, shift})
+		variants = append(variants, variant{name, ins, shift, remaps})
 	}
 
 	type runCfg struct {
@@ -393,15 +471,33 @@ func runCli(r *hx.Rand, work string, nvar int, allRuns bool, o *Output) {
 		b := res["base"]
 		for _, v := range variants {
 			c := CCase{Config: rc.config, Show: rc.show, Variant: v.name}
+			// display position (what report.DisplayPosition yields) of a raw position of the variant
+			disp := func(p Pos) Pos {
+				var best *remap
+				for _, rm := range v.remaps {
+					if rm.file == p.File && rm.raw < p.Line && (best == nil || rm.raw > best.raw) {
+						best = rm
+					}
+				}
+				if best == nil {
+					return p
+				}
+				q := Pos{best.name, best.n + (p.Line - (best.raw + 1)), p.Col}
+				if !best.withCol {
+					q.Col = 0
+				}
+				return q
+			}
 			for _, d := range b {
 				nd := d
 				nd.Pos.Line = v.shift[d.Pos.File][d.Pos.Line-1]
+				nd.Pos = disp(nd.Pos)
 				if d.Cat == "U1000" {
 					u := UDiag{D: nd}
 					for _, f := range files {
 						if f.name == d.Pos.File {
 							for _, kl := range f.keepers[d.Pos.Line-1] {
-								u.Keepers = append(u.Keepers, Pos{f.name, v.shift[f.name][kl], 1})
+								u.Keepers = append(u.Keepers, disp(Pos{f.name, v.shift[f.name][kl], 1}))
 							}
 						}
 					}
@@ -420,7 +516,15 @@ func runCli(r *hx.Rand, work string, nvar int, allRuns bool, o *Output) {
 				nl := v.shift[in.file][in.at]
 				col := indentOf(f.lines[in.at]) + 1
 				// several comments above the same line cannot happen (distinct targets), so the comment is on nl-1
-				c.Dirs = append(c.Dirs, CDir{Text: in.text, DPos: Pos{in.file, nl - 1, col}, NPos: Pos{in.file, nl, col}})
+				c.Dirs = append(c.Dirs, CDir{Text: in.text, DPos: disp(Pos{in.file, nl - 1, col}), NPos: disp(Pos{in.file, nl, col})})
+			}
+			for _, rm := range v.remaps {
+				c.Remap = "control"
+				for _, in := range v.ins {
+					if in.file == rm.file && in.at >= rm.at {
+						c.Remap = "before"
+					}
+				}
 			}
 			c.Out = res[v.name]
 			o.Cli = append(o.Cli, c)
